@@ -144,7 +144,7 @@ fn items_for(state: usize, max: i32, thorough: bool) -> Vec<Item> {
         ("outer-len:1".into(), varint(1), false),
         ("outer-len:max-1".into(), varint(max - 1), max - 1 <= 0),
         ("outer-len:max".into(), varint(max), false),
-        ("outer-len:max+1".into(), varint(max.saturating_add(1)), true),
+        ("outer-len:max+1".into(), varint(max.saturating_add(1)), max != i32::MAX),
         ("outer-len:i32-max".into(), varint(i32::MAX), max != i32::MAX),
         ("outer-len:overlong-varint".into(), vec![0x80, 0x80, 0x80, 0x80, 0x80, 0x01], true),
         ("outer-len:5xff".into(), vec![0xff; 5], true),
@@ -440,6 +440,122 @@ fn judge(it: &Item, baseline_packets: usize, obs: &Obs) -> Vec<(String, String)>
     v
 }
 
+
+/// After the router's own final Disconnect (no target / keep-alive timeout) the client sends more - malformed
+/// length prefixes, garbage, well-formed frames - and hangs up. Runs in a CHILD process (`<exe> C04-after-disconnect`):
+/// a handler that spins without ever yielding cannot be interrupted from inside its own process. The child prints
+/// `CASE <label>` before and `DONE <label> <json>` after every case.
+pub fn after_final_disconnect_child() {
+    let hostile: Vec<(&str, Vec<u8>)> = vec![
+        ("length 0", varint(0)),
+        ("length i32::MAX", varint(i32::MAX)),
+        ("five continuation bytes", vec![0xff; 5]),
+        ("negative length", varint(-1)),
+        ("an empty frame body", vec![1, 0]),
+        ("a Keep Alive", codec::frame(4, &7u64.to_be_bytes())),
+        ("300 bytes of garbage", vec![0x5a; 300]),
+        ("nothing", vec![]),
+    ];
+    for ending in ["no-target", "timeout"] {
+        for (what, bytes) in &hostile {
+            for eof in [true, false] {
+                let label = format!("{ending}|{what}|{}", if eof { "then the client hangs up" } else { "then silence" });
+                println!("CASE {label}");
+                let mut case = Case::default();
+                case.cfg.auth_secret = Some(SECRET.to_vec());
+                case.script = prefix(9);
+                // the hostile bytes are sent one second after the Disconnect went out (if anybody still reads)
+                let after = if ending == "no-target" {
+                    case.adapters.strat = StratPlan::None;
+                    case.adapters.disc_ms = 5_000;
+                    6_000
+                } else {
+                    case.adapters.disc_ms = 40_000;
+                    case.echo = Echo::Never;
+                    33_000
+                };
+                case.script.push(st(When::IdleAfter(after), Act::Raw(bytes.clone())));
+                if eof {
+                    case.script.push(st(When::With, Act::Eof));
+                }
+                case.horizon_ms = 120_000;
+                let obs = crate::sim::run(&case);
+                let t_disc = obs.packets.iter().zip(obs.packet_started.iter()).find_map(|((_, p), t0)| if p.kind() == "ConfDisconnect" { Some(*t0) } else { None });
+                let mut faults: Vec<(String, String)> = vec![];
+                match &obs.result {
+                    RunResult::Panic(p) if p.starts_with(SPIN_MARK) => faults.push(("keeps-running-after-eof".into(), format!("the handler kept reading after the end of stream ({p})"))),
+                    RunResult::Panic(p) => faults.push(("panic:after-final-disconnect".into(), p.clone())),
+                    RunResult::Horizon => faults.push(("keeps-running-after-eof".into(), "the handler was still running 120 s (virtual) later".into())),
+                    _ => {}
+                }
+                if t_disc.is_none() {
+                    faults.push(("machinery:no-final-disconnect".into(), format!("{:?} {:?}", obs.kinds(), obs.result)));
+                }
+                if let (Some(at), true) = (obs.eof_at, eof) {
+                    if obs.end_ms > at {
+                        faults.push(("keeps-running-after-eof".into(), format!("end of stream delivered at {at} ms, the handler ended at {} ms", obs.end_ms)));
+                    }
+                }
+                if obs.max_alloc > 2 * 10_000 + 64 * 1024 {
+                    faults.push(("allocation:after-final-disconnect".into(), format!("a single allocation of {} bytes", obs.max_alloc)));
+                }
+                if obs.packets.iter().filter(|(_, p)| p.kind() == "ConfDisconnect").count() != 1 || !matches!(obs.packets.last(), Some((_, p)) if p.kind() == "ConfDisconnect") {
+                    faults.push(("reply-after-malformed-frame:after-final-disconnect".into(), format!("{:?}", obs.kinds())));
+                }
+                println!("DONE {label} {}", serde_json::to_string(&faults).unwrap());
+            }
+        }
+    }
+    println!("END");
+}
+
+/// parent side of [`after_final_disconnect_child`]
+fn after_final_disconnect(rep: &Report) -> u64 {
+    use std::io::{BufRead, BufReader};
+    let exe = std::env::current_exe().expect("exe");
+    let mut child = std::process::Command::new(exe).arg("C04-after-disconnect").stdout(std::process::Stdio::piped()).stderr(std::process::Stdio::null()).spawn().expect("spawn");
+    let out = child.stdout.take().expect("stdout");
+    let (tx, rx) = std::sync::mpsc::channel::<String>();
+    std::thread::spawn(move || {
+        for line in BufReader::new(out).lines().map_while(Result::ok) {
+            if tx.send(line).is_err() {
+                break;
+            }
+        }
+    });
+    let mut current = String::new();
+    let mut n = 0u64;
+    loop {
+        // one case takes milliseconds; half a minute of silence is a handler that never comes back
+        match rx.recv_timeout(std::time::Duration::from_secs(30)) {
+            Ok(line) if line == "END" => break,
+            Ok(line) => {
+                if let Some(l) = line.strip_prefix("CASE ") {
+                    current = l.to_string();
+                } else if let Some(rest) = line.strip_prefix("DONE ") {
+                    n += 1;
+                    let json_at = rest.rfind(" [").map(|i| i + 1).unwrap_or(rest.len());
+                    let faults: Vec<(String, String)> = serde_json::from_str(&rest[json_at..]).unwrap_or_default();
+                    for (k, t) in faults {
+                        rep.violation(Violation { key: k, text: format!("after the router's final Disconnect ({}): {t}", &rest[..json_at]), replay: json!({"after_disconnect": current}), weight: 9_000 });
+                    }
+                }
+            }
+            Err(_) => {
+                let _ = child.kill();
+                let _ = child.wait();
+                if current.is_empty() {
+                    common::machinery("C04: the child process for the after-Disconnect cases printed nothing for 30 s");
+                }
+                rep.violation(Violation { key: "keeps-running-after-eof".into(), text: format!("after the router's final Disconnect ({current}): the handler did not return within 30 s of real time (it never yields: the virtual clock cannot advance, no deadline can fire)"), replay: json!({"after_disconnect": current}), weight: 9_000 });
+                return n;
+            }
+        }
+    }
+    let _ = child.wait();
+    n
+}
+
 pub fn run(cli: Cli) -> ! {
     run_with(cli, &|_| {})
 }
@@ -472,8 +588,10 @@ pub fn run_with(cli: Cli, extra: &dyn Fn(&Report)) -> ! {
     for state in 0..N_STATES {
         let maxes: Vec<i32> = match state {
             // (a maximum that is not positive - e.g. a configured value that wrapped around - admits nothing)
-            0 => vec![1, 64, 10_000, 2_097_151, 0, -1, i32::MIN],
-            1..=5 => vec![64, 10_000, 2_097_151],
+            // (and one next to the top of the type's range - "no limit" - where length arithmetic may leave it)
+            0 => vec![1, 64, 10_000, 2_097_151, 0, -1, i32::MIN, i32::MAX, i32::MAX - 4],
+            1 | 4 => vec![64, 10_000, 2_097_151, i32::MAX],
+            2..=5 => vec![64, 10_000, 2_097_151],
             _ => vec![10_000, 2_097_151],
         };
         for (mi, max) in maxes.iter().enumerate() {
@@ -572,6 +690,9 @@ pub fn run_with(cli: Cli, extra: &dyn Fn(&Report)) -> ! {
     rep.sample(json!({"item": items[items.len() - 1]}));
     rep.assume("'every byte sequence' is covered as well-formed transcripts with one mutated frame per run (deviation bound 1) from the stated alphabet");
     rep.assume("the largest single allocation is measured by a counting global allocator armed only while the handler runs (harness transport and adapters excluded); bound 2*max_packet_length + 64 KiB");
+    let after = after_final_disconnect(&rep);
+    rep.require("cases after the router's final Disconnect (child process)", after, 20);
+    rep.set("cases_after_the_final_disconnect", json!(after));
     extra(&rep);
     rep.finish()
 }
